@@ -135,13 +135,24 @@ Theorem strict_parser_marks_every_subnet_option :
 Proof. exact loop_marks. Qed.
 Print Assumptions strict_parser_marks_every_subnet_option.
 
+(* ... stated about the Request the CALLER of parseWireOPT sees (the translated method hands the
+   mutated receiver back): whenever the packet is admitted *)
+Theorem strict_parser_result_marks_every_subnet_option : forall fuel r off r',
+  go_Request_parseWireOPT fuel r off = Some (true, r') ->
+  exists cs, opt_codes_at fuel (T_Request_raw r) (off + 11)%Z (go_len (T_Request_raw r)) = Some cs /\
+    T_Request_hasECS r' = T_Request_hasECS r || has_code 8%N cs /\
+    T_Request_hasNSID r' = T_Request_hasNSID r || has_code 3%N cs /\
+    T_Request_hasKeepalive r' = T_Request_hasKeepalive r || has_code 11%N cs.
+Proof. exact parse_marks. Qed.
+Print Assumptions strict_parser_result_marks_every_subnet_option.
+
 Theorem strict_entry_has_ecs_iff_option_present : forall raw off r,
-  wire_opt_walk raw off = (GoNext, r) ->
+  wire_opt_parse raw off = Some (true, r) ->
   exists cs, opt_codes_at (S (length raw)) raw (off + 11)%Z (go_len raw) = Some cs /\
     T_Request_hasECS r = has_code 8%N cs /\
     T_Request_hasNSID r = has_code 3%N cs /\
     T_Request_hasKeepalive r = has_code 11%N cs.
-Proof. exact wire_walk_marks. Qed.
+Proof. exact wire_parse_marks. Qed.
 Print Assumptions strict_entry_has_ecs_iff_option_present.
 
 (* ---------------------------------------------------------------- no_ecs_to_client *)
